@@ -150,6 +150,8 @@ def tyname(t):
 
 
 def show_desc(desc):
+    if desc is None:
+        return 'None'
     return '[' + ' '.join('%s:%s' % (q_show(c.name), tyname(c.datatype)) for c in desc) + ']'
 
 
